@@ -497,7 +497,48 @@ def check_hdap_frame(case, frame: bytes, level: str):
         raise Fail(f"{level}frame_equals_reference_assembly", frame.hex(), ref.hdap_frame(p, case["rel"], want_op, frame[5:-2]).hex())
 
 
+def _roundtrip_twins(case):
+    """near-twins riding on a single-PDU case (case["twins"]: PDU cases of the same opcode with another variable-length / optional
+    part) are built, serialised and parsed - at the bare / HRNP / HSTRP level in turn, from reference-wrapped octets - BEFORE the
+    judged PDU; the parsed objects are kept and judged again after it"""
+    kept = []
+    for j, tw in enumerate(case.get("twins") or []):
+        level = LEVELS[j % 3]
+        built = call(build_pdu, tw, clause="near_twin_build_no_exception")[1]
+        frame = call(built.as_bytes, clause="near_twin_serialise_no_exception")[1]
+        wire = _wire(tw, level, frame)
+        outer, inner = _parse_level(level, wire, "near_twin_parse_no_exception")
+        _expect_parsed("near_twin_parsed_before_the_judged_pdu", j, tw, level, outer, inner, wire)
+        kept.append((tw, level, outer, inner, wire))
+    return kept
+
+
+def _twin_bucket(oracle):
+    """failures of a case that carries near-twins get their own clause ids (".._with_near_twins_parsed_first"): the history that
+    produced them is inside the case, so the stored case replays on its own; the same clause failing on a case without twins is
+    either independent of any history or points at state left by an earlier case of the process"""
+    import functools
+
+    @functools.wraps(oracle)
+    def wrapped(case):
+        try:
+            return oracle(case)
+        except Fail as f:
+            if case.get("twins") and "near_twin" not in f.clause:
+                f.clause = f.clause + "_with_near_twins_parsed_first"
+            raise
+
+    return wrapped
+
+
 def oracle_pdu(case):
+    twins = _roundtrip_twins(case)
+    _oracle_pdu(case)
+    for j, (tw, level, outer, inner, wire) in enumerate(twins):
+        _expect_parsed("near_twin_kept_while_the_judged_pdu_was_handled", j, tw, level, outer, inner, wire)
+
+
+def _oracle_pdu(case):
     from okdmr.dmrlib.hytera.pdu.hdap import HDAP
     from okdmr.dmrlib.hytera.pdu.hrnp import HRNP, HRNPOpcodes
     from okdmr.dmrlib.hytera.pdu.hstrp import HSTRP
@@ -608,6 +649,9 @@ def oracle_pdu(case):
     _unchanged("inner_pdu_fields_unchanged_by_wrappers", pdu, built)
 
 
+oracle_pdu = _twin_bucket(oracle_pdu)
+
+
 def _reported_len(obj, clause: str, default: int) -> int:
     """len(obj) when the class reports a length, else ``default`` (a class without __len__ is not a violation)"""
     if obj is None or not hasattr(type(obj), "__len__"):
@@ -675,6 +719,8 @@ def oracle_transport(case):
 
 
 def _strategies():
+    import random
+
     from hypothesis import strategies as st
 
     from okdmr.dmrlib.etsi.layer3.elements.talker_alias_data_format import TalkerAliasDataFormat
@@ -783,8 +829,16 @@ def _strategies():
 
     hstrp = envelope()
 
-    def pdu_cases(proto, op):
-        return st.fixed_dictionaries({"proto": st.just(proto), "op": st.just(op), "rel": st.booleans(), "f": S[(proto, op)], "hrnp": hrnp, "hstrp": hstrp})
+    def pdu_cases(proto, op, twins: bool = False):
+        base = st.fixed_dictionaries({"proto": st.just(proto), "op": st.just(op), "rel": st.booleans(), "f": S[(proto, op)], "hrnp": hrnp, "hstrp": hstrp})
+        if not twins:
+            return base
+
+        def add_twins(t):
+            case, n, seed = t
+            return with_twins(random.Random(seed), case, n)
+
+        return st.tuples(base, st.sampled_from([0, 0, 0, 1, 1, 2]), st.integers(0, 2**32 - 1)).map(add_twins)
 
     hrnp_ctl = st.fixed_dictionaries({"version": st.integers(0, 4), "block": u8, "src": u8, "dst": u8, "pn": u16,
                                       "opcode": st.sampled_from([k for k in ref.HRNP_OPCODES if k != "DATA"])})
@@ -837,6 +891,8 @@ def classify(case):
         if any(v >= 2**24 for k, v in f.items() if k in ("target_id", "sender_id")):
             cls.append("rcp_id_above_24_bit")
     cls.append(f"hstrp_options_{len(case['hstrp']['options'])}")
+    if case.get("twins"):
+        cls.append("near_twins_parsed_first")
     if case["rel"]:
         cls.append("reliable")
     blob = "".join(str(f.get(k) or "") for k in ("short", "option", "raw_payload", "alias"))
@@ -1330,8 +1386,8 @@ def boundary_cases_pdu(rng, E, proto, op):
         yield from _option_variants(rng, base)
 
 
-def boundary_cases_transport(rng):
-    for opcode in [k for k in ref.HRNP_OPCODES if k != "DATA"]:
+def boundary_cases_transport(rng, part: str = "hrnp+hstrp"):
+    for opcode in [k for k in ref.HRNP_OPCODES if k != "DATA" and "hrnp" in part]:
         for bg in range(2):
             h, _ = _rand_envelopes(rng)
             base = {"kind": "hrnp", "hrnp": dict(h, opcode=opcode)}
@@ -1344,7 +1400,7 @@ def boundary_cases_transport(rng):
                 for pn in _solve_pn(h, b"", target, ref.HRNP_OPCODES[opcode]):
                     yield f"hrnp_checksum_{target if isinstance(target, str) else '%04x' % target}", _with(base, ("hrnp", "pn"), pn)
                     break
-    for bits in range(32):
+    for bits in range(32 if "hstrp" in part else 0):
         _, env = _rand_envelopes(rng)
         env["flags"].update(is_reject=bool(bits & 1), is_close=bool(bits & 2), is_connect=bool(bits & 4), is_ack=bool(bits & 8), is_heartbeat=bool(bits & 16) and not env["options"])
         base = {"kind": "hstrp", "hstrp": env}
@@ -1362,6 +1418,7 @@ def run_boundary(ctx: Ctx, sub: SubCheck, items, gen):
 
     def work(item, t: Tally):
         rng = ctx.rng("boundary", sub.name, item)
+        trng = ctx.rng("boundary-twins", sub.name, item)
         seen = set()
         n_sampled = 0
         for label, case in gen(rng, E, item):
@@ -1371,6 +1428,10 @@ def run_boundary(ctx: Ctx, sub: SubCheck, items, gen):
             if k in seen:
                 continue
             seen.add(k)
+            if "proto" in case and (label == "background" or len(seen) % 5 == 0):
+                case = with_twins(trng, case, 1 + len(seen) % 2)
+                if case.get("twins"):
+                    t.cls(sub.name, "near_twins_parsed_first")
             ctx.run_case(sub.name, sub.oracle, case, t)
             nt = classify(case)[0] if "proto" in case else True
             t.case(sub.name, nontrivial=nt, cls=f"boundary.{label}")
@@ -1381,6 +1442,627 @@ def run_boundary(ctx: Ctx, sub: SubCheck, items, gen):
 
     ctx.shards(work, items)
     ctx.tally.notes.append(f"{sub.name}: deterministic boundary pass (every integer field at min/min+1/max-1/max/top bit, length-field octet edges, steered checksums, option lists) runs before the Hypothesis search")
+
+
+# ------------------------------------------------------------------------------------- histories (objects kept alive)
+#
+# Sub-check 'histories': a case is a short history in ONE interpreter, not one PDU.
+#   phase 0  one object per (protocol, opcode) of the history is built with as few constructor arguments as serialising needs
+#            (everything else left to the constructor defaults); its field dump and octets are noted,
+#   phase 1  item after item: build from fields, serialise (framing / layout reference), wrap by the REFERENCE assembly at the
+#            item's level (bare HDAP / HRNP DATA / HSTRP with the item's options), parse with the library, compare the fields
+#            with the generated values, re-serialise; all objects are KEPT; between two items an unrelated operation runs
+#            (repr of everything kept, a truncated / cross-dispatched parse that is refused, a default-constructed object of the
+#            same opcode, an unrelated captured frame, RadioIP of the same four octets in the other endianness),
+#   phase 2  in another order: every kept parsed object still serialises to ITS OWN octets and still carries ITS OWN generated
+#            fields, every kept built object is unchanged; the item's octets are parsed once more (A, B, A again),
+#   phase 3  the same in the original order, then the minimal objects of phase 0 are built again: same fields, same octets as
+#            before the history and as in a fresh interpreter (noted when this module was imported); the objects of phase 0
+#            themselves are unchanged.
+# Items of one history are near-twins: the same opcode with a different variable-length / optional part (other key set, empty,
+# shorter, longer, same length other content, option data None / empty / some, GPS time / date / speed / course absent or set,
+# other HSTRP option list), plus items of other opcodes of the same protocol.
+
+LEVELS = ("bare", "hrnp", "hstrp")
+BETWEEN_OPS = ("nothing", "repr_everything", "refused_truncated_parse", "refused_cross_dispatch", "default_object", "captured_frame", "radio_ip_siblings")
+
+
+def minimal_object(proto: str, op: str):
+    """an object of the opcode built with as few constructor arguments as serialising needs; all other parameters keep the
+    constructor defaults"""
+    from okdmr.dmrlib.hytera.pdu.radio_ip import RadioIP
+
+    if proto == "RRS":
+        from okdmr.dmrlib.hytera.pdu import radio_registration_service as m
+
+        return m.RadioRegistrationService(opcode=m.RRSTypes[op], radio_ip=RadioIP(radio_id=1))
+    if proto == "LP":
+        from okdmr.dmrlib.hytera.pdu import location_protocol as m
+
+        kw = {}
+        if op == "StandardReport":
+            kw["gpsdata"] = build_gps({"valid": "A", "time": [1, 2, 3], "date": [2020, 2, 29], "ns": "N", "lat": 50000000, "ew": "E", "lon": 14000000, "speed": 10, "dir": 7})
+        return m.LocationProtocol(opcode=m.LocationProtocolSpecificService[op], request_id=1, radio_ip=RadioIP(radio_id=1), **kw)
+    if proto == "TMP":
+        from okdmr.dmrlib.hytera.pdu import text_message_protocol as m
+
+        kw = {"result_code": m.TMPResultCodes.OK} if op.endswith("Ack") else {}
+        return m.TextMessageProtocol(opcode=m.TMPService[op], source_ip=RadioIP(radio_id=2), destination_ip=RadioIP(radio_id=1), **kw)
+    if proto == "RCP":
+        from okdmr.dmrlib.etsi.layer3.elements.talker_alias_data_format import TalkerAliasDataFormat
+        from okdmr.dmrlib.hytera.pdu import radio_control_protocol as m
+
+        kw = {}
+        if op == "UnknownService":
+            kw["raw_opcode"] = b"\x34\x12"
+        if op in ("CallRequest", "RepeaterBroadcastTransmitStatus", "SendTalkerAliasRequest", "SendTalkerAliasReply"):
+            kw["target_id"] = 1
+        if op in ("RepeaterBroadcastTransmitStatus", "SendTalkerAliasRequest", "SendTalkerAliasReply"):
+            kw["sender_id"] = 2
+        if op == "RepeaterBroadcastTransmitStatus":
+            kw.update(repeater_mode=list(m.RepeaterMode)[0], repeater_status=list(m.RepeaterStatus)[0], repeater_service_type=list(m.RepeaterServiceType)[0])
+        if op == "RadioIDAndRadioIPQueryReply":
+            kw["raw_value"] = b"\x00\x00\x00\x01"
+        if op == "SendTalkerAliasRequest":
+            kw["talker_alias_format"] = list(TalkerAliasDataFormat)[0]
+        return m.RadioControlProtocol(opcode=m.RCPOpcode[op], **kw)
+    raise HarnessError(f"unknown protocol {proto}")
+
+
+def _observe_minimal(proto: str, op: str, obj=None):
+    """(field dump, octets | exception type name) of a minimal object (a fresh one unless ``obj`` is given)"""
+    o = minimal_object(proto, op) if obj is None else obj
+    try:
+        octets = o.as_bytes().hex()
+    except Exception as e:  # an opcode whose defaults cannot be serialised: the type of the refusal is the observation
+        octets = f"raises {type(e).__name__}"
+    return {"fields": field_dump(o), "octets": octets}
+
+
+def _transport_minimal():
+    from okdmr.dmrlib.hytera.pdu.hrnp import HRNP
+    from okdmr.dmrlib.hytera.pdu.hstrp import HSTRP, HSTRPOptions, HSTRPPacketType
+
+    out = {}
+    for name, fn in (("HSTRPOptions", HSTRPOptions), ("HSTRPPacketType", HSTRPPacketType), ("HRNP", HRNP), ("HSTRP", lambda: HSTRP(pkt_type=HSTRPPacketType(), sn=0))):
+        o = fn()
+        out[name] = {"fields": field_dump(o), "octets": o.as_bytes().hex()}
+    return out
+
+
+def _fresh_interpreter_baseline():
+    """what minimal objects look like before this process used the library for anything else (taken at import of this module)"""
+    try:
+        base = {f"{p}.{op}": _observe_minimal(p, op) for p, ops in OPS.items() for op in ops}
+        base.update(_transport_minimal())
+        return base
+    except Exception:
+        return None  # constructors of another shape (a refactored tree): the fresh-interpreter clause is skipped, the before/after clause stays
+
+
+_BASELINE = _fresh_interpreter_baseline()
+
+
+def _as_fresh(name: str, obs):
+    ref_ = (_BASELINE or {}).get(name)
+    d = first_diff(obs, ref_) if ref_ is not None else None
+    if d:
+        return Fail("history_starts_with_default_constructed_objects_as_in_fresh_interpreter", observed={"opcode": name, "path": d[0], "now": d[1]},
+                    expected={"path": d[0], "fresh_interpreter": d[2]})
+    return None
+
+
+def _wire(item, level: str, frame: bytes) -> bytes:
+    """the PDU octets wrapped by the reference assembly (independent of the library)"""
+    if level == "hrnp":
+        h = item["hrnp"]
+        return ref.hrnp_frame(h["version"], h["block"], ref.HRNP_OPCODES["DATA"], h["src"], h["dst"], h["pn"], frame)
+    if level == "hstrp":
+        env = item["hstrp"]
+        return ref.hstrp_frame(env["version"], env["flags"], env["sn"], [(ref.HSTRP_OPTION_TYPES[n], bytes.fromhex(d)) for n, d in env["options"]], frame)
+    return frame
+
+
+def _parse_level(level: str, wire: bytes, clause: str):
+    """(outer object, inner PDU)"""
+    from okdmr.dmrlib.hytera.pdu.hdap import HDAP
+    from okdmr.dmrlib.hytera.pdu.hrnp import HRNP
+    from okdmr.dmrlib.hytera.pdu.hstrp import HSTRP
+
+    if level == "hrnp":
+        o = call(HRNP.from_bytes, wire, clause=clause)[1]
+        return o, o.data
+    if level == "hstrp":
+        o = call(HSTRP.from_bytes, wire, clause=clause)[1]
+        if o is None:
+            raise Fail("hstrp_parse_gives_object", None, "HSTRP")
+        return o, o.payload
+    o = call(HDAP.from_bytes, wire, clause=clause)[1]
+    return o, o
+
+
+def _expect_parsed(tag: str, idx: int, item, level: str, outer, inner, wire: bytes):
+    """a parsed object (kept or fresh) carries the generated fields of ITS item and serialises to ITS octets"""
+    want_cls = type(build_pdu(item)).__name__ if inner is None else None
+    if inner is None:
+        raise Fail(f"{tag}_parse_gives_same_class", None, want_cls)
+    try:
+        check_generated(f"{tag}_fields_equal_generated", inner, expected_pdu_fields(item))
+        if level == "hrnp":
+            check_generated(f"{tag}_fields_equal_generated", outer, expected_hrnp_fields(item["hrnp"], "DATA", {}))
+        if level == "hstrp":
+            check_generated(f"{tag}_fields_equal_generated", outer, expected_hstrp_fields(item["hstrp"], {}))
+    except Fail as f:
+        f.observed = {"item": idx, **(f.observed if isinstance(f.observed, dict) else {"observed": f.observed})}
+        raise
+    out = call(outer.as_bytes, clause=f"{tag}_reserialise_no_exception")[1]
+    if out != wire:
+        raise Fail(f"{tag}_reencode_equal_octets", {"item": idx, "got": out.hex()}, wire.hex())
+
+
+def _between(opname: str, kept, item, frame: bytes, wire: bytes, level: str):
+    """an unrelated operation between two items: stimulus only, whatever it returns or raises is ignored"""
+    from okdmr.dmrlib.hytera.pdu.hdap import HDAP
+    from okdmr.dmrlib.hytera.pdu.location_protocol import LocationProtocol
+    from okdmr.dmrlib.hytera.pdu.radio_control_protocol import RadioControlProtocol
+    from okdmr.dmrlib.hytera.pdu.radio_ip import RadioIP
+    from okdmr.dmrlib.hytera.pdu.radio_registration_service import RadioRegistrationService
+    from okdmr.dmrlib.hytera.pdu.text_message_protocol import TextMessageProtocol
+
+    steps = []
+    if opname == "repr_everything":
+        steps = [lambda o=o: (repr(o), str(o)) for k in kept for o in (k["built"], k["outer"], k["inner"])]
+    elif opname == "refused_truncated_parse":
+        steps = [lambda n=n: _parse_level(level, wire[:n], "x") for n in (len(wire) - 3, len(wire) // 2, 6, 0)] + [lambda: _parse_level(level, wire[:-2] + b"\x00\x00", "x")]
+    elif opname == "refused_cross_dispatch":
+        steps = [lambda c=c: c.from_bytes(frame) for c in (RadioControlProtocol, TextMessageProtocol, LocationProtocol, RadioRegistrationService)]
+    elif opname == "default_object":
+        steps = [lambda: (minimal_object(item["proto"], item["op"]).as_bytes(), repr(minimal_object(item["proto"], item["op"])))]
+    elif opname == "captured_frame":
+        cap = bytes.fromhex(ref.CAPTURED_HDAP[len(wire) % len(ref.CAPTURED_HDAP)])
+        steps = [lambda: (HDAP.from_bytes(cap).as_bytes(), repr(HDAP.from_bytes(cap)))]
+    elif opname == "radio_ip_siblings":
+        for k in ("ip", "dst", "src"):
+            d = item["f"].get(k)
+            if d:
+                four = bytes([d["subnet"]]) + d["id"].to_bytes(3, "big")
+                steps += [lambda four=four: (repr(RadioIP.from_bytes(four, endian="little")), RadioIP.from_bytes(four[::-1]).as_ip(), RadioIP.from_ip(str(RadioIP.from_bytes(four)), endian="little"))]
+    for st_ in steps:
+        try:
+            st_()
+        except Exception:
+            pass
+
+
+def oracle_history(case):
+    """see the comment above.  When the default-constructed objects of phase 0 do not look as in a fresh interpreter, an earlier
+    history or prelude of this process left something behind: the history is still judged, but every clause it fails gets the
+    suffix "_in_a_process_with_state_left_behind" (such a case need not fail when replayed alone; the history / prelude that left
+    the state fails its own "after equals before" clause or is replayed from the _prelude tag), and a history that holds
+    otherwise fails "history_starts_with_default_constructed_objects_as_in_fresh_interpreter"."""
+    items, levels, between = case["items"], case["levels"], case["between"]
+    kinds = sorted({(it["proto"], it["op"]) for it in items})
+    dirty = None
+    try:
+        # ---- phase 0: minimal objects before anything is parsed
+        minimal = {}
+        for p, op in kinds:
+            o = call(minimal_object, p, op, clause="build_no_exception")[1]
+            minimal[(p, op)] = (o, _observe_minimal(p, op, o))
+            dirty = dirty or _as_fresh(f"{p}.{op}", minimal[(p, op)][1])
+        transport0 = _transport_minimal()
+        for name, obs in transport0.items():
+            dirty = dirty or _as_fresh(name, obs)
+        _history_rest(case, items, levels, between, minimal, transport0)
+    except Fail as f:
+        if dirty is not None:
+            f.clause += "_in_a_process_with_state_left_behind"
+        raise
+    if dirty is not None:
+        raise dirty
+
+
+def _history_rest(case, items, levels, between, minimal, transport0):
+    # ---- phase 1
+    kept = []
+    for idx, item in enumerate(items):
+        level = levels[idx]
+        built = call(build_pdu, item, clause="build_no_exception")[1]
+        before = field_dump(built)
+        frame = call(built.as_bytes, clause="serialise_no_exception")[1]
+        check_hdap_frame(item, frame, "history_")
+        want_payload = expected_payload(item)
+        if want_payload is not None and frame[5:-2] != want_payload:
+            raise Fail("history_payload_octets_equal_layout_reference", {"item": idx, "got": frame[5:-2].hex()}, want_payload.hex())
+        wire = _wire(item, level, frame)
+        outer, inner = _parse_level(level, wire, "parse_no_exception")
+        if type(inner) is not type(built):
+            raise Fail("history_parse_gives_same_class", {"item": idx, "got": type(inner).__name__}, type(built).__name__)
+        _expect_parsed("history_first_parse", idx, item, level, outer, inner, wire)
+        kept.append({"item": item, "level": level, "built": built, "before": before, "frame": frame, "wire": wire, "outer": outer, "inner": inner})
+        _between(BETWEEN_OPS[between[idx] % len(BETWEEN_OPS)], kept, item, frame, wire, level)
+    # ---- phases 2 and 3
+    for phase, order in (("after_other_pdus_were_parsed", case["order"]), ("second_pass", list(range(len(items))))):
+        for idx in order:
+            k = kept[idx]
+            _expect_parsed(f"history_kept_object_{phase}", idx, k["item"], k["level"], k["outer"], k["inner"], k["wire"])
+            again = call(k["built"].as_bytes, clause="serialise_no_exception")[1]
+            if again != k["frame"]:
+                raise Fail(f"history_built_object_{phase}_same_octets", {"item": idx, "got": again.hex()}, k["frame"].hex())
+            _unchanged(f"history_built_object_{phase}_unchanged", k["built"], k["before"])
+            if phase == "after_other_pdus_were_parsed":
+                outer, inner = _parse_level(k["level"], k["wire"], "parse_no_exception")
+                _expect_parsed("history_parsed_again_after_other_pdus", idx, k["item"], k["level"], outer, inner, k["wire"])
+                k["outer2"], k["inner2"] = outer, inner
+            else:
+                _expect_parsed("history_parsed_again_second_pass", idx, k["item"], k["level"], k["outer2"], k["inner2"], k["wire"])
+    # ---- minimal objects afterwards
+    for (p, op), (o, was) in minimal.items():
+        for clause, now in (("history_default_constructed_object_kept_unchanged", _observe_minimal(p, op, o)),
+                            ("history_default_constructed_object_after_equals_before", _observe_minimal(p, op))):
+            d = first_diff(now, was)
+            if d:
+                raise Fail(clause, observed={"opcode": f"{p}.{op}", "path": d[0], "now": d[1]}, expected={"path": d[0], "before_the_history": d[2]})
+    transport1 = _transport_minimal()
+    for name in transport1:
+        d = first_diff(transport1[name], transport0[name])
+        if d:
+            raise Fail("history_default_constructed_object_after_equals_before", observed={"opcode": name, "path": d[0], "now": d[1]}, expected={"path": d[0], "before_the_history": d[2]})
+
+
+# ---- near-twins of a PDU case: the same opcode with another variable-length / optional part
+
+VARIABLE_KEYS = ("settings", "config", "alias", "raw_payload", "text", "short", "option")
+_E_CACHE = []
+
+
+def _E():
+    if not _E_CACHE:
+        _E_CACHE.append(_enum_names())
+    return _E_CACHE[0]
+
+
+def near_twin(rng, case, force=None):
+    """(label, variant of the case): ONE part changed - a variable-length field emptied / shortened / extended / replaced, option
+    data None <-> empty <-> data, GPS time / date / speed / course absent <-> set, another HSTRP option list, a flag, one integer"""
+    E = _E()
+    p, op, f = case["proto"], case["op"], case["f"]
+    cands = [k for k in VARIABLE_KEYS if k in f and not (op.startswith("ZoneAndChannel") and k == "raw_payload")]
+    moves = [("variable", k) for k in cands] * 3 + [("hstrp_options", None), ("flag", None), ("int", None)]
+    if "gps" in f:
+        moves += [("gps", None)] * 3
+    if op.startswith("ZoneAndChannel"):
+        moves += [("fixed_octets", None)] * 2
+    kind, k = force or moves[rng.randrange(len(moves))]
+    if kind == "variable":
+        cur = f[k]
+        if k == "settings":
+            tg, stt = E["sc_target"], E["sc_setting"]
+            have = [t for t, _ in cur]
+            rest = [t for t in tg if t not in have]
+            choices = {
+                "emptied": [],
+                "shorter": cur[: len(cur) // 2],
+                "other_key_set": [[t, rng.choice(stt)] for t in rng.sample(rest, min(len(rest), max(1, len(cur))))],
+                "superset": cur + [[t, rng.choice(stt)] for t in rng.sample(rest, min(len(rest), 2))],
+                "same_keys_other_values": [[t, stt[(stt.index(v) + 1) % len(stt)]] for t, v in cur],
+                "same_keys_other_order": list(reversed(cur)),
+                "one_key": [[rng.choice(tg), rng.choice(stt)]],
+            }
+        elif k == "config":
+            n = bytes.fromhex(cur)[0] if cur else 0
+            mk = lambda m: (bytes([m]) + rng.randbytes(2 * m)).hex()
+            choices = {"emptied": "00", "shorter": mk(n // 2), "longer": mk(min(255, n + 2)), "same_length_other_content": mk(n), "one_entry": mk(1)}
+        elif k == "text":
+            choices = {"emptied": "", "shorter": cur[: len(cur) // 2], "longer": cur + "".join(rng.choice("abcé中") for _ in range(1 + rng.randrange(6))),
+                       "same_length_other_content": "".join(rng.choice("xyzЖ") for _ in cur), "one_char": rng.choice(["a", "﻿", "\x00"])}
+        else:  # hex octet strings; option data may also be absent
+            b = bytes.fromhex(cur) if cur else b""
+            mx = 255 if k == "alias" else 64
+            choices = {"emptied": "", "shorter": b[: len(b) // 2].hex(), "longer": (b + rng.randbytes(1 + rng.randrange(6)))[:mx].hex(),
+                       "same_length_other_content": rng.randbytes(len(b)).hex(), "one_octet": rng.choice(["00", "03", "ff"])}
+            if k == "option":
+                choices["absent"] = None
+        choices = {n: v for n, v in choices.items() if v != cur}
+        if not choices:
+            return "identical", case
+        name = sorted(choices)[rng.randrange(len(choices))]
+        return f"{k}_{name}", _with(case, ("f", k), choices[name])
+    if kind == "gps":
+        g = f["gps"]
+        name, key, val = rng.choice([("time_absent", "time", None), ("time_set", "time", [rng.randrange(24), rng.randrange(60), rng.randrange(60)]),
+                                     ("date_absent", "date", None), ("date_set", "date", [2000 + rng.randrange(100), 1 + rng.randrange(12), 1 + rng.randrange(28)]),
+                                     ("speed_absent", "speed", 0), ("speed_set", "speed", 10 * rng.randint(1, 99)), ("course_absent", "dir", 0), ("course_set", "dir", rng.randint(1, 359))])
+        return ("identical" if g[key] == val else f"gps_{name}"), _with(case, ("f", "gps", key), val)
+    if kind == "fixed_octets":
+        return "raw_payload_same_length_other_content", _with(case, ("f", "raw_payload"), rng.randbytes(len(f["raw_payload"]) // 2).hex())
+    if kind == "hstrp_options":
+        nm = rng.choice(sorted(NATURAL_OPTION_LEN))
+        cur = case["hstrp"]["options"]
+        opts = rng.choice([[], cur[: len(cur) // 2], cur + [[nm, rng.randbytes(NATURAL_OPTION_LEN[nm]).hex()]], [[n, rng.randbytes(len(d) // 2).hex()] for n, d in cur], [[nm, ""]]])
+        c = _with(case, ("hstrp", "options"), opts)
+        c["hstrp"]["flags"]["have_options"] = bool(opts)
+        if opts:
+            c["hstrp"]["flags"]["is_heartbeat"] = False
+        return ("identical" if opts == cur else "hstrp_options_changed"), c
+    if kind == "flag":
+        if "confirmed" in f and rng.random() < 0.5:
+            return "flag_flipped", _with(case, ("f", "confirmed"), not f["confirmed"])
+        return "flag_flipped", _with(case, ("rel",), not case["rel"])
+    ints = [(("f", k2), F_INT[k2]) for k2 in F_INT if k2 in f] + [(("f", k2, "id"), (0, 2**24 - 1)) for k2 in ("ip", "dst", "src") if k2 in f]
+    ints += [(("hrnp", "pn"), (0, 0xFFFF)), (("hstrp", "sn"), (0, 0xFFFF))]
+    path, (lo, hi) = ints[rng.randrange(len(ints))]
+    cur = _get(case, path)
+    new = rng.choice([v for v in (lo, hi, min(hi, cur + 1), max(lo, cur - 1), rng.randint(lo, hi)) if v != cur] or [cur])
+    return ("identical" if new == cur else "one_integer_changed"), _with(case, path, new)
+
+
+def with_twins(rng, case, n: int):
+    """the single-PDU case with n near-twins attached (none when the case is large or inside the open GPS speed finding)"""
+    if n <= 0 or not _small(case):
+        return case
+    tw = [t for t in (near_twin(rng, case)[1] for _ in range(n)) if _small(t)]
+    return dict(case, twins=tw) if tw else case
+
+
+def _small(case) -> bool:
+    """items of histories: moderate sizes, and outside the open finding C12-gps-speed-field-overflow (the 'lp' sub-check keeps
+    generating and tallying those speeds)"""
+    f = case["f"]
+    if "gps" in f and f["gps"]["speed"] != 0 and speed_text_len(f["gps"]["speed"]) != 3:
+        return False
+    return all(len(f.get(k) or "") <= 700 for k in ("short", "option", "raw_payload", "alias", "config", "text"))
+
+
+def build_history(rng, base, n_twins: int, others=(), force=None):
+    """history = the base case, n near-twins of it (or of each other) and ``others`` (cases of other opcodes), in seeded order"""
+    items, labels = [base], []
+    for j in range(n_twins):
+        src = items[rng.randrange(len(items))] if rng.random() < 0.3 else base
+        label, tw = near_twin(rng, src, force)
+        tw["hrnp"] = dict(tw["hrnp"], pn=(tw["hrnp"]["pn"] + 1 + j) & 0xFFFF)
+        labels.append(label)
+        items.insert(rng.randrange(len(items) + 1), tw)
+    for o in others:
+        items.insert(rng.randrange(len(items) + 1), o)
+    n = len(items)
+    order = list(range(n))
+    rng.shuffle(order)
+    return {"items": items, "levels": [LEVELS[rng.randrange(3)] for _ in range(n)], "between": [rng.randrange(len(BETWEEN_OPS)) for _ in range(n)], "order": order}, labels
+
+
+def history_classes(case):
+    items = case["items"]
+    cls = [f"history_of_{len(items)}"]
+    ops = {(it["proto"], it["op"]) for it in items}
+    cls.append("one_opcode" if len(ops) == 1 else "several_opcodes")
+    for lv in sorted(set(case["levels"])):
+        cls.append(f"level.{lv}")
+    for b in sorted({BETWEEN_OPS[x % len(BETWEEN_OPS)] for x in case["between"]}):
+        cls.append(f"between.{b}")
+    for i, a in enumerate(items):
+        for b in items[:i]:
+            if (a["proto"], a["op"]) != (b["proto"], b["op"]):
+                continue
+            for k in VARIABLE_KEYS:
+                if k in a["f"] and a["f"][k] != b["f"][k]:
+                    x, y = a["f"][k], b["f"][k]
+                    if not x or not y:
+                        cls.append(f"same_opcode.{k}.empty_or_absent_vs_present")
+                    elif len(x) != len(y):
+                        cls.append(f"same_opcode.{k}.different_length")
+                    else:
+                        cls.append(f"same_opcode.{k}.same_length_other_content")
+            if "gps" in a["f"] and any((a["f"]["gps"][k] in (None, 0)) != (b["f"]["gps"][k] in (None, 0)) for k in ("time", "date", "speed", "dir")):
+                cls.append("same_opcode.gps.absent_vs_present_part")
+            if a["hstrp"]["options"] != b["hstrp"]["options"]:
+                cls.append("same_opcode.other_hstrp_option_list")
+    return sorted(set(cls))
+
+
+def drv_histories(ctx: Ctx, sub: SubCheck):
+    import random
+
+    from hypothesis import strategies as st
+
+    E = _E()
+    pdu_cases, _ = _strategies()
+    pairs = [(p, op) for p, ops in OPS.items() for op in ops]
+    variable_ops = {("RCP", "StatusChangeNotificationRequest"), ("RCP", "BroadcastStatusConfigurationRequest"), ("RCP", "SendTalkerAliasRequest"), ("RCP", "UnknownService"),
+                    ("LP", "StandardReport")} | {("TMP", op) for op in TMP_OPS}
+
+    # (a) deterministic: per opcode, seeded base + near-twins (every variable key forced once: A then B and B then A both occur
+    # through the seeded insertion position), with and without PDUs of other opcodes of the same protocol around them
+    def work(item, t: Tally):
+        p, op = item
+        rng = ctx.rng("histories", p, op)
+        reps = ctx.pick(6, 60) * (3 if (p, op) in variable_ops else 1)
+        for r in range(reps):
+            hrnp, hstrp = _rand_envelopes(rng)
+            base = {"proto": p, "op": op, "rel": bool(r % 2), "f": _rand_fields(rng, E, p, op), "hrnp": hrnp, "hstrp": hstrp}
+            keys = [k for k in VARIABLE_KEYS if k in base["f"] and not op.startswith("ZoneAndChannel")]
+            force = ("variable", keys[r % len(keys)]) if keys and r % 3 != 2 else None
+            others = []
+            if r % 4 == 3:
+                op2 = rng.choice(sorted(OPS[p]))
+                h2, s2 = _rand_envelopes(rng)
+                others.append({"proto": p, "op": op2, "rel": False, "f": _rand_fields(rng, E, p, op2), "hrnp": h2, "hstrp": s2})
+            case, labels = build_history(rng, base, 1 + r % 3, others, force)
+            ctx.run_case(sub.name, oracle_history, case, t)
+            t.case(sub.name, nontrivial=True, cls=f"deterministic.{p}.{op}")
+            for c in history_classes(case) + [f"twin.{x}" for x in labels]:
+                t.cls(sub.name, c)
+            _drain_skipped(sub.name, t)
+        t.sample(sub.name, case)
+
+    ctx.shards(work, pairs)
+
+    # (b) Hypothesis: 2..4 independently drawn PDUs of one opcode (Hypothesis likes empty lists / strings: empty vs non-empty
+    # variable parts are frequent), or of 2 opcodes of one protocol, plus 0..2 near-twins
+    def rec(case, t: Tally):
+        t.case(sub.name, key=case, nontrivial=True, cls=f"{case['items'][0]['proto']}.{case['items'][0]['op']}")
+        for c in history_classes(case):
+            t.cls(sub.name, c)
+        _drain_skipped(sub.name, t)
+
+    def strat(p, op):
+        sibs = sorted(OPS[p])
+
+        def build(tp):
+            own, other_op_cases, n_tw, seed = tp
+            rng = random.Random(seed)
+            own = [c for c in own if _small(c)]
+            if not own:
+                return {"items": []}
+            case, _ = build_history(rng, own[0], n_tw, list(own[1:]) + [c for c in other_op_cases if _small(c)])
+            return case
+
+        other = st.sampled_from(sibs).flatmap(lambda o: st.lists(pdu_cases(p, o), max_size=1))
+        return st.tuples(st.lists(pdu_cases(p, op), min_size=1, max_size=3), other, st.sampled_from([0, 1, 1, 2]), st.integers(0, 2**32 - 1)).map(build).filter(lambda c: len(c["items"]) >= 2)
+
+    def hyp(item, t: Tally):
+        p, op = item
+        n = ctx.pick(12, 1200) * (3 if (p, op) in variable_ops else 1)
+        # not shrunk: shrinking replays candidates in the process the first failure may have left dirty, and drifts to histories that
+        # fail only there; the first failing history of a process is judged in a clean one and replays on its own
+        ctx.hypothesis(sub.name, strat(p, op), oracle_history, n, tally=t, shard=f"{p}.{op}", record=rec, shrink=False)
+
+    ctx.shards(hyp, pairs)
+    ctx.tally.extra["fresh_interpreter_baseline_available"] = _BASELINE is not None
+
+
+# ------------------------------------------------------------------------------------------------------------ preludes
+#
+# Calls the framework runs between the two judgements of a case (stimulus only; vp/core.py "Preludes"): near-twins of the judged
+# PDU through every entry point and nesting (build, serialise, reference-wrapped parse at all three levels, repr), rightly refused
+# variants of the same octets (truncated, end octet / checksum damaged, dispatched to the wrong protocol class), a default-
+# constructed object of the same opcode, the RadioIP octets through the sibling constructors in both endiannesses.
+
+
+def _op_roundtrip(a):
+    """a = a PDU case: build, serialise, parse at every level from reference-wrapped octets, serialise and repr everything"""
+    pdu = build_pdu(a)
+    frame = pdu.as_bytes()
+    objs = [pdu]
+    for level in LEVELS:
+        try:
+            outer, inner = _parse_level(level, _wire(a, level, frame), "x")
+            objs += [outer, inner]
+        except BaseException:
+            pass
+    for o in objs:
+        for fn in (lambda: o.as_bytes(), lambda: repr(o), lambda: len(o)):
+            try:
+                fn()
+            except BaseException:
+                pass
+
+
+def _op_refused(a):
+    """a = {"case": PDU case, "how": ...}: damaged octets of the same PDU through the parsers"""
+    from okdmr.dmrlib.hytera.pdu.location_protocol import LocationProtocol
+    from okdmr.dmrlib.hytera.pdu.radio_control_protocol import RadioControlProtocol
+    from okdmr.dmrlib.hytera.pdu.radio_registration_service import RadioRegistrationService
+    from okdmr.dmrlib.hytera.pdu.text_message_protocol import TextMessageProtocol
+
+    case, how = a["case"], a["how"]
+    frame = build_pdu(case).as_bytes()
+    for level in LEVELS:
+        wire = _wire(case, level, frame)
+        bad = {"truncated": wire[: max(0, len(wire) - 1 - a.get("n", 2))], "half": wire[: len(wire) // 2], "end_octet": wire[:-1] + b"\x00",
+               "checksum": wire[:-2] + bytes([wire[-2] ^ 0x55]) + wire[-1:], "length_field": wire[:-4] if len(wire) > 12 else wire[:3]}.get(how, wire[:5])
+        try:
+            outer, inner = _parse_level(level, bad, "x")
+            outer.as_bytes(), repr(outer)
+        except BaseException:
+            pass
+    if how == "cross_dispatch":
+        for c in (RadioControlProtocol, TextMessageProtocol, LocationProtocol, RadioRegistrationService):
+            try:
+                repr(c.from_bytes(frame))
+            except BaseException:
+                pass
+
+
+def _op_minimal(a):
+    o = minimal_object(a["proto"], a["op"])
+    try:
+        repr(o)
+    finally:
+        o.as_bytes()
+
+
+def _op_radio_ip(a):
+    from okdmr.dmrlib.hytera.pdu.radio_ip import RadioIP
+
+    four = bytes.fromhex(a["four"])
+    for fn in (lambda: repr(RadioIP.from_bytes(four, endian="little")), lambda: RadioIP.from_bytes(four[::-1]).as_ip(), lambda: RadioIP.from_bytes(four).as_bytes("little"),
+               lambda: RadioIP.from_ip(str(RadioIP.from_bytes(four)), endian="little").as_bytes(), lambda: RadioIP(radio_id=four[1:], subnet=four[0]).as_bytes()):
+        try:
+            fn()
+        except BaseException:
+            pass
+
+
+def _op_transport(a):
+    """a = a 'transport' case: build, serialise, parse, repr; then the same octets truncated"""
+    from okdmr.dmrlib.hytera.pdu.hrnp import HRNP, HRNPOpcodes
+    from okdmr.dmrlib.hytera.pdu.hstrp import HSTRP
+
+    if a["kind"] == "hrnp":
+        h = a["hrnp"]
+        o = HRNP(data=None, opcode=HRNPOpcodes[h["opcode"]], source=h["src"], destination=h["dst"], block_number=h["block"], packet_number=h["pn"], version=h["version"])
+        cls = HRNP
+    else:
+        o, cls = build_hstrp(a["hstrp"], None), HSTRP
+    b = o.as_bytes()
+    for data in (b, b[:-1], b[:7], b + b"\x00"):
+        try:
+            back = cls.from_bytes(data)
+            back.as_bytes(), repr(back)
+        except BaseException:
+            pass
+
+
+PRELUDE_OPS = {"roundtrip": _op_roundtrip, "refused": _op_refused, "minimal": _op_minimal, "radio_ip": _op_radio_ip, "transport": _op_transport}
+
+
+def prelude_for(sub, case, rng):
+    try:
+        if sub == "transport":
+            calls = []
+            if case["kind"] == "hstrp":
+                env = case["hstrp"]
+                nm = rng.choice(sorted(NATURAL_OPTION_LEN))
+                for opts in ([], env["options"][:1], env["options"] + [[nm, rng.randbytes(NATURAL_OPTION_LEN[nm]).hex()]]):
+                    e2 = dict(env, options=opts, flags=dict(env["flags"], have_options=bool(opts), is_heartbeat=env["flags"]["is_heartbeat"] and not opts))
+                    calls.append({"x": "transport", "a": {"kind": "hstrp", "hstrp": e2}})
+            else:
+                h = case["hrnp"]
+                calls.append({"x": "transport", "a": {"kind": "hrnp", "hrnp": dict(h, pn=h["pn"] ^ 0xFFFF)}})
+                calls.append({"x": "transport", "a": {"kind": "hrnp", "hrnp": dict(h, opcode=rng.choice([k for k in ref.HRNP_OPCODES if k != "DATA"]))}})
+            return calls
+        base = case["items"][rng.randrange(len(case["items"]))] if sub == "histories" else case
+        if not _small(base):
+            return [{"x": "minimal", "a": {"proto": base["proto"], "op": base["op"]}}]
+        calls = []
+        for _ in range(2):
+            label, tw = near_twin(rng, base)
+            if _small(tw):
+                calls.append({"x": "roundtrip", "a": tw})
+        calls.append({"x": "refused", "a": {"case": base, "how": rng.choice(["truncated", "half", "end_octet", "checksum", "length_field", "cross_dispatch"]), "n": rng.randrange(0, 6)}})
+        calls.append({"x": "minimal", "a": {"proto": base["proto"], "op": base["op"]}})
+        for k in ("ip", "dst", "src"):
+            d = base["f"].get(k)
+            if d:
+                calls.append({"x": "radio_ip", "a": {"four": (bytes([d["subnet"]]) + d["id"].to_bytes(3, "big")).hex()}})
+                break
+        if "raw_value" in base["f"]:
+            calls.append({"x": "radio_ip", "a": {"four": base["f"]["raw_value"]}})
+        calls.append({"x": "roundtrip", "a": base})
+        return calls
+    except (KeyError, IndexError, TypeError, ValueError):
+        return []
 
 
 # ------------------------------------------------------------------------------------------------------ drivers
@@ -1400,7 +2082,7 @@ def make_driver(proto: str):
 
         def work(item, t: Tally):
             op, j = item
-            ctx.hypothesis(sub.name, pdu_cases(proto, op), sub.oracle, max(1, per_op // split), tally=t, shard=f"{op}/{j}", record=record_pdu(sub.name))
+            ctx.hypothesis(sub.name, pdu_cases(proto, op, twins=True), sub.oracle, max(1, per_op // split), tally=t, shard=f"{op}/{j}", record=record_pdu(sub.name))
 
         ctx.shards(work, items)
         ctx.tally.extra["reference_vectors_reproduced"] = _REF_VECTORS
@@ -1410,7 +2092,9 @@ def make_driver(proto: str):
 
 def drv_transport(ctx: Ctx, sub: SubCheck):
     _, transport = _strategies()
-    run_boundary(ctx, sub, ["hrnp+hstrp"], lambda rng, E, item: boundary_cases_transport(rng))
+    # two items: the pass runs in forked workers like everything else (a single item would run in the parent process, and
+    # whatever its cases and preludes leave behind would be inherited by every later worker)
+    run_boundary(ctx, sub, ["hrnp", "hstrp"], lambda rng, E, item: boundary_cases_transport(rng, item))
 
     def work(i, t: Tally):
         ctx.hypothesis(sub.name, transport, oracle_transport, ctx.pick(150, 10000), tally=t, shard=i, record=record_transport)
@@ -1424,6 +2108,8 @@ SUBCHECKS = [
     SubCheck("tmp", oracle_pdu, make_driver("TMP"), "TMP / short-data PDUs (8 opcodes x reliable x confirmed x option data): framing, round trip, nestings"),
     SubCheck("rcp", oracle_pdu, make_driver("RCP"), "RCP PDUs (16 opcodes + unknown-service pass-through), little-endian: framing, round trip, nestings"),
     SubCheck("transport", oracle_transport, drv_transport, "HRNP control packets and HSTRP datagrams without application payload vs reference + round trip"),
+    SubCheck("histories", oracle_history, drv_histories, "histories in one interpreter: parse A, unrelated operation, parse near-twins B.. of the same opcode (other / empty / shorter variable part), "
+             "then every kept object still carries and serialises its own PDU, A parses the same again, default-constructed objects are as before"),
 ]
 
 
